@@ -361,6 +361,7 @@ func Main() {
 	})
 	run.Assume("the UTXO projection is computed from the reference UTXO set, which the same run ties to the node's UTXO dump after every delivery")
 	run.Assume("taproot addresses only receive (the generator has no taproot signer); P2PKH/P2SH/P2WPKH/P2WSH are received and spent")
+	os.RemoveAll(tmp) // Finish exits the process: deferred clean-up would not run
 	run.Finish("each evaluation = GetAllUnspent(addr) (set, sum) for one address compared with the UTXO projection after one delivery / reorganisation step / index (re)build; plus a full Browse comparison each time; distinct_nontrivial = distinct histories (seed, number of addresses)",
 		"address_checks", "addresses_seen", 4)
 }
